@@ -113,20 +113,44 @@ def banded(draw, tier, base=True):
         zone = "P1"
     for _ in range(draw(st.integers(1, 2))):
         a = draw(st.integers(-40, 400)) * 1.0
-        span = draw(st.sampled_from([5.0, 10.0, 20.0, 50.0]))
+        span = draw(st.sampled_from([5.0, 10.0, 20.0, 50.0, 0.4, 0.3, 0.04, 0.4, 0.04]))  # narrow bands: two pinches that coincide at 0 or 1 decimals
         dth, dtc = draw(st.sampled_from([0.0, 2.5, 5.0])), draw(st.sampled_from([0.0, 2.5, 5.0]))
         q = draw(G.duty())
         off = draw(st.sampled_from([0.0, 0.0, 30.0, 80.0]))  # 0: matched band; > 0: the cold twin lies below (surplus cascades down)
         if draw(st.booleans()):
             # the hot side of the band is two parallel streams (0.7 + 0.1 vs 0.8): the residual closes on a float residue, not on 0.0
             f = draw(st.sampled_from([0.875, 0.7, 0.3, 0.1, 0.6]))
-            case["streams"].append({"zone": zone, "name": "Hb1", "t_supply": a + span + dth, "t_target": a + dth, "heat_flow": round(q * f, 6), "dt_cont": dth, "htc": 1.0})
-            case["streams"].append({"zone": zone, "name": "Hb2", "t_supply": a + span + dth, "t_target": a + dth, "heat_flow": round(q - round(q * f, 6), 6), "dt_cont": dth, "htc": 1.0})
+            case["streams"].append({"zone": zone, "name": "Hb1", "t_supply": round(a + span + dth, 6), "t_target": round(a + dth, 6), "heat_flow": round(q * f, 6), "dt_cont": dth, "htc": 1.0})
+            case["streams"].append({"zone": zone, "name": "Hb2", "t_supply": round(a + span + dth, 6), "t_target": round(a + dth, 6), "heat_flow": round(q - round(q * f, 6), 6), "dt_cont": dth, "htc": 1.0})
             # the cold twin carries the exact decimal sum (0.7 + 0.1 -> 0.8), which the float sum of the two CPs misses by an ulp
             q = float(Fr(repr(round(q * f, 6))) + Fr(repr(round(q - round(q * f, 6), 6))))
         else:
-            case["streams"].append({"zone": zone, "name": "Hb", "t_supply": a + span + dth, "t_target": a + dth, "heat_flow": q, "dt_cont": dth, "htc": 1.0})
-        case["streams"].append({"zone": zone, "name": "Cb", "t_supply": a - off - dtc, "t_target": a - off + span - dtc, "heat_flow": q, "dt_cont": dtc, "htc": 1.0})
+            case["streams"].append({"zone": zone, "name": "Hb", "t_supply": round(a + span + dth, 6), "t_target": round(a + dth, 6), "heat_flow": q, "dt_cont": dth, "htc": 1.0})
+        case["streams"].append({"zone": zone, "name": "Cb", "t_supply": round(a - off - dtc, 6), "t_target": round(a - off + span - dtc, 6), "heat_flow": q, "dt_cont": dtc, "htc": 1.0})
+    narrow = any(s["name"] == "Cb" and abs(s["t_target"] - s["t_supply"]) < 1.0 for s in case["streams"])
+    if "options" not in case and draw(st.integers(0, 3)) < (3 if narrow else 1):
+        # the reporting precision is a documented option; it must not decide which pinches are reported
+        case["options"] = {"DECIMAL_PLACES": draw(st.sampled_from([0, 0, 1, 3]))}
+    return case
+
+
+@st.composite
+def narrow_double_pinch(draw, tier):
+    """Two pinches a fraction of a kelvin apart (a source exactly balanced by a sink directly below it, between a sink above
+    and a source below), optionally with the reporting precision set to 0 or 1 decimals: both pinches are zeros of the
+    residual and both must be reported, however coarse the reporting precision."""
+    dt = draw(st.sampled_from([0.0, 5.0]))
+    x = float(draw(st.integers(20, 300)))
+    half = draw(st.sampled_from([0.2, 0.2, 0.02, 0.15, 2.0]))
+    g0, g3 = float(draw(st.sampled_from([10.0, 25.0, 60.0]))), float(draw(st.sampled_from([10.0, 30.0])))
+    T = [round(x + 2 * half + g0, 6), round(x + 2 * half, 6), round(x + half, 6), x, round(x - g3, 6)]
+    q0, h, q3 = float(draw(st.sampled_from([50.0, 120.0]))), float(draw(st.sampled_from([4.0, 80.0]))), float(draw(st.sampled_from([30.0, 90.0])))
+    hot = lambda nm, hi, lo, q: {"zone": "P1", "name": nm, "t_supply": round(hi + dt, 6), "t_target": round(lo + dt, 6), "heat_flow": q, "dt_cont": dt, "htc": 1.0}
+    cold = lambda nm, hi, lo, q: {"zone": "P1", "name": nm, "t_supply": round(lo - dt, 6), "t_target": round(hi - dt, 6), "heat_flow": q, "dt_cont": dt, "htc": 1.0}
+    ss = [cold("C0", T[0], T[1], q0), hot("H1", T[1], T[2], h), cold("C2", T[2], T[3], h), hot("H3", T[3], T[4], q3)]
+    case = {"streams": draw(st.permutations(ss)), "utilities": draw(st.sampled_from([[], []])) or draw(G.utilities([T[0] + 40.0, T[4] - 40.0], thirds=False)) if draw(st.booleans()) else []}
+    if draw(st.integers(0, 3)) > 0:
+        case["options"] = {"DECIMAL_PLACES": draw(st.sampled_from([0, 0, 1, 3]))}
     return case
 
 
@@ -135,6 +159,7 @@ def strategy(tier):
     return G.with_options(st.one_of(
         banded(tier),
         banded(tier, base=False),
+        narrow_double_pinch(tier),
         G.problem(min_streams=2, max_streams=mx, shape="mixed"),
         G.problem(min_streams=2, max_streams=mx, shape="mixed", multi_zone=True),
         G.problem(max_streams=mx),
